@@ -33,11 +33,16 @@ def flip(cfg, axis_value):
 
 
 DEBUG = flip(BASELINE, 'debug')
+TSAN = BASELINE + '-tsan'
 
 
 def flags(cfg, repo):
-    simd, stats, dbg, spin = cfg.split('-')
+    simd, stats, dbg, spin = cfg.split('-')[:4]
     f = ['-x', 'c++', '-std=c++20', '-mavx2' if simd == 'avx2' else '-msse4.1']
+    if cfg.endswith('-tsan'):
+        # the ThreadSanitizer build: __has_feature(thread_sanitizer) selects UNODB_DETAIL_THREAD_SANITIZER code (not part of all_configs();
+        # requested by name for the one function that has a sanitizer-only body)
+        f.append('-fsanitize=thread')
     if stats == 'stats':
         f.append('-DUNODB_DETAIL_WITH_STATS')
     if dbg == 'ndebug':
